@@ -370,6 +370,14 @@ def _binding_sites(cs, e, depth=0, out=None, ancestors=True, visited=None):
             for t in _tails(src):
                 if t.get("k") == "Tup" and idx and idx[0] < len(t["es"]):
                     _binding_sites(cs, t["es"][idx[0]], depth + 1, out, ancestors, visited)
+                else:
+                    # `let (ctx, items) = { fn item(..) .. ; parse_sep_end_by(ctx, sep, end, item)? };` - a block whose value
+                    # is the call
+                    t2 = peel_clone(t)
+                    if t2.get("k") == "Try":
+                        t2 = peel_clone(t2["e"])
+                    if (t2.get("k") == "MethodCall" and t2["m"] in ADVANCING) or t2.get("k") == "Call":
+                        out[id(o["node"])] = pp(t2)[:50]
     return out
 
 
